@@ -468,11 +468,14 @@ def build_work(tier, engines, rs):
     for bi, base in enumerate(BASE_ORDER):
         V, F = SEEDS[base + "/r0"]
         planes = []
-        for n in normals_all():
+        for ni, n in enumerate(normals_all()):
             c2s = offsets(V, n)
             for c2 in c2s:
                 planes.append((n, c2))
             # parallel sections through mesh_multiplane, one call per normal covering every offset
+            # (quick: every second normal per seed, alternating between seeds)
+            if tier != "thorough" and (ni + bi) % 2:
+                continue
             for r in (range(3) if tier == "thorough" else [(len(work) + bi) % 3]):
                 work.append(("multi", "%s/r%d" % (base, r), wid, n, c2s))
                 wid += 1
@@ -480,8 +483,10 @@ def build_work(tier, engines, rs):
             patterns |= sign_patterns(base + "/r0", n, c2)
             npairs += 1
             want_slice = positive_rep(n)
-            # thorough: every engine on every pair; quick: every engine on every second pair, one (rotating) on the rest
-            eng = list(engines) if (tier == "thorough" or k % 2 == 0 or not engines) else [engines[(k // 2) % len(engines)]]
+            # every engine on every pair, except in quick on every second pair of a convex seed (one engine, rotating):
+            # caps with holes, several loops or pinched loops only arise on the non-convex seeds
+            full = tier == "thorough" or base in NONCONVEX or k % 2 == 0 or not engines
+            eng = list(engines) if full else [engines[(k // 2) % len(engines)]]
             if want_slice and k_theory(base + "/r0", n) > KCAP:
                 eng = []
                 nocap[base + str(list(n))] = nocap.get(base + str(list(n)), 0) + 1
@@ -493,12 +498,12 @@ def build_work(tier, engines, rs):
             # capping a non-convex solid through a vertex pinches the section polygon and the outcome then
             # depends on rounding noise: more origins on the same plane, normal scalings and engines
             if eng and base in NONCONVEX and (0, 0, 0) in sign_patterns_v(base + "/r0", n, c2):
-                for q in range(40 if tier == "thorough" else 3):
+                for q in range(40 if tier == "thorough" else 2):
                     work.append(("capsweep", "%s/r%d" % (base, (k + q) % 3), wid, n, c2, eng[(k + q) % len(eng)]))
                     wid += 1
         # plane pairs for multi-plane slicing: normals from {-1,0,1}^3
         simple = [(n, c2) for n, c2 in planes if max(abs(x) for x in n) == 1]
-        for q in range(600 if tier == "thorough" else 90):
+        for q in range(600 if tier == "thorough" else 60):
             p1 = simple[rs.randint(len(simple))]
             p2 = simple[rs.randint(len(simple))]
             if p1[0] == p2[0] or p1[0] == tuple(-x for x in p2[0]):
